@@ -106,3 +106,82 @@ func MakeRunnable(t *Task) {
 		t.state = tsRunnable
 	}
 }
+
+// ChanTimer is the simulated counterpart of time.Timer / time.Ticker for code that waits
+// on the channel: the value is delivered by the scheduler at the virtual instant.
+type ChanTimer struct {
+	C      <-chan time.Time
+	c      chan time.Time
+	tm     *timer
+	period time.Duration
+	real   *time.Timer
+	realT  *time.Ticker
+}
+
+//go:norace
+func (ct *ChanTimer) arm(d time.Duration) {
+	s := S
+	tm := &timer{at: s.now + int64(d)}
+	tm.cb = func() {
+		select {
+		case ct.c <- Now():
+		default:
+		}
+		if ct.period > 0 && !tm.dead {
+			ct.arm(ct.period)
+		}
+	}
+	ct.tm = tm
+	s.addTimer(tm)
+}
+
+// NewChanTimer: one-shot (period 0) or periodic timer channel.
+//
+//go:norace
+func NewChanTimer(d, period time.Duration) *ChanTimer {
+	s := S
+	if s == nil || s.over {
+		if period > 0 {
+			tk := time.NewTicker(period)
+			return &ChanTimer{C: tk.C, realT: tk}
+		}
+		rt := time.NewTimer(d)
+		return &ChanTimer{C: rt.C, real: rt}
+	}
+	c := make(chan time.Time, 1)
+	ct := &ChanTimer{C: c, c: c, period: period}
+	ct.arm(d)
+	return ct
+}
+
+//go:norace
+func (ct *ChanTimer) Stop() bool {
+	if ct.real != nil {
+		return ct.real.Stop()
+	}
+	if ct.realT != nil {
+		ct.realT.Stop()
+		return true
+	}
+	was := ct.tm != nil && !ct.tm.dead && S != nil && ct.tm.at > S.now
+	if ct.tm != nil {
+		ct.tm.dead = true
+	}
+	return was
+}
+
+//go:norace
+func (ct *ChanTimer) Reset(d time.Duration) bool {
+	if ct.real != nil {
+		return ct.real.Reset(d)
+	}
+	if ct.realT != nil {
+		ct.realT.Reset(d)
+		return true
+	}
+	was := ct.Stop()
+	if S != nil && !S.over {
+		ct.arm(d)
+	}
+	return was
+}
